@@ -33,7 +33,21 @@ def _chunk(item):
     import hdl21 as h
     from hdl21.prefix import Prefix, Prefixed
 
-    ea, eb, mants = item
+    ea, eb, mants = item[:3]
+    # "lowprec": the same evaluations with the caller's ambient decimal context set to six digits - results are exact all the same
+    import decimal
+    from hdl21.prefix import e as hexp
+
+    saved_prec = decimal.getcontext().prec
+    if len(item) > 3 and item[3] == "lowprec":
+        decimal.getcontext().prec = 6
+    try:
+        return _chunk_body(ea, eb, mants, Prefix, Prefixed, hexp)
+    finally:
+        decimal.getcontext().prec = saved_prec
+
+
+def _chunk_body(ea, eb, mants, Prefix, Prefixed, hexp):
     pa, pb = Prefix.from_exp(ea), Prefix.from_exp(eb)
     viol = []
     outcomes = set()
@@ -69,7 +83,24 @@ def _chunk(item):
                         outcomes.add(op + ":ok")
                     except Exception as e:
                         bad(op, sa, None, "raised", short_exc(e))
+            # the documented exponent spelling `number * e(k)`, digit for digit
+            n += 1
+            try:
+                r = Decimal(ma) * hexp(ea)
+                if fval(r) != va:
+                    bad("num*e(k)", sa, None, "inexact", str(fval(r)), str(va))
+            except Exception as e:
+                bad("num*e(k)", sa, None, "raised", short_exc(e))
             for et in PREFIX_EXPS:
+                # a prefixed number times a prefix, e.g. `(5 * n) * G`
+                if -24 <= ea + et <= 24:
+                    n += 1
+                    try:
+                        r = A * Prefix.from_exp(et)
+                        if not isinstance(r, Prefixed) or fval(r) != va * Fraction(10) ** et:
+                            bad("x*prefix", sa, et, "inexact", str(fval(r)) if isinstance(r, Prefixed) else r, str(va * Fraction(10) ** et))
+                    except Exception as e:
+                        bad("x*prefix", sa, et, "raised", short_exc(e))
                 n += 1
                 try:
                     r = A.scale(Prefix.from_exp(et))
@@ -171,15 +202,19 @@ def run(ctx):
         extra = M_MORE[ctx.seed % len(M_MORE)]
         mants = mants + [extra]
     items = [(ea, eb, mants) for ea in PREFIX_EXPS for eb in PREFIX_EXPS]
+    # ... and once more inside a six-digit ambient decimal context (a sub-box of mantissas; every prefix pair)
+    low = [m for m in mants if m in ("0", "-2.5", "999.9995", "1234567", "1234567890123456789012345", "1.00000000000000000000001")]
+    items += [(ea, eb, low, "lowprec") for ea in PREFIX_EXPS for eb in PREFIX_EXPS]
     ctx.extra["mantissas"] = mants
     ctx.extra["box"] = "21x21 ordered prefix pairs x ordered mantissa pairs; ops + - * neg abs scale(21) autoscale int float, six comparisons, hash"
     results = ctx.pmap(_chunk, items, chunk=4)
-    for (ea, eb, _m), (n, outcomes, viol) in zip(items, results):
-        ctx.count(states=len(mants) ** 2, transitions=n, traces_validated_against_impl=n)
+    for it, (n, outcomes, viol) in zip(items, results):
+        ctx.count(states=len(it[2]) ** 2, transitions=n, traces_validated_against_impl=n)
         for o in outcomes:
             ctx.outcome(o)
         for v in viol:
-            sig = dict(op=v["op"], what=v["what"] if v["what"] != "raised" else "raised " + v["got"].split(":")[0].strip("'\""))
+            v["context"] = "six-digit ambient decimal context" if len(it) > 3 else "default"
+            sig = dict(op=v["op"], context=v["context"], what=v["what"] if v["what"] != "raised" else "raised " + v["got"].split(":")[0].strip("'\""))
             ctx.violation(sig, v)
     ctx.sample(dict(a=(mants[3], PREFIX_EXPS[3]), b=(mants[5], PREFIX_EXPS[12]), ops="all"))
     ctx.sample(dict(a=(mants[-1], 24), b=(mants[1], -24), ops="all"))
@@ -190,6 +225,8 @@ def replay(body):
     c = body["case"]
     a, b = c["a"], c["b"]
     items = (a[1], b[1] if b and isinstance(b, list) else PREFIX_EXPS[0], sorted({a[0]} | ({b[0]} if b and isinstance(b, list) else set())))
+    if c.get("context", "default") != "default":
+        items = items + ("lowprec",)
     n, o, v = _chunk(items)
     v = [x for x in v if x["op"] == c["op"]]
     print("replay:", v[:3] if v else "holds")
